@@ -16,7 +16,7 @@ Proof. unfold tok_ok. congruence. Qed.
 (* ---------- frames for the threads that do not move ---------- *)
 Lemma facts_not_cs s s' p : in_cs (lvl s) p = false -> lvl s' = lvl s -> pc_facts s' p.
 Proof.
-  intros H L. destruct p as [|k| | |k|k m|k m v|k m v|t| | | | |c|]; cbn in *; try discriminate; auto.
+  intros H L. destruct p as [|k| | |k|k m|k m v|k m v|t| | | | |c| |]; cbn in *; try discriminate; auto.
   destruct k; auto. intros L3. rewrite L in L3. rewrite L3 in H. discriminate.
 Qed.
 
@@ -38,7 +38,7 @@ Proof.
   - rewrite L, K. exact H1.
   - eapply Forall_tok_ok_mono; [| |exact H2]; lia.
   - rewrite L. exact H4.
-  - destruct (tpc th) as [|k| | |k|k m|k m v|k m v|t| | | | |c|]; cbn in *; auto;
+  - destruct (tpc th) as [|k| | |k|k m|k m v|k m v|t| | | | |c| |]; cbn in *; auto;
       try (destruct k; auto; rewrite L, W; exact H5); try (rewrite A; exact H5);
       try (rewrite A, W; exact H5); try (rewrite A, W, C; exact H5).
 Qed.
@@ -76,13 +76,13 @@ Lemma tinv_dec_ar s i thi :
   1 <= ar s -> tinv s i thi -> tinv (set_ar s (dec64 (ar s))) i thi.
 Proof.
   intros A [H1 H2 H3 H4 H5 H6]. constructor; cbn; auto.
-  destruct (tpc thi) as [|k| | |k|k m|k m v|k m v|t| | | | |c|]; cbn in *; auto; exfalso; lia.
+  destruct (tpc thi) as [|k| | |k|k m|k m v|k m v|t| | | | |c| |]; cbn in *; auto; exfalso; lia.
 Qed.
 Lemma tinv_dec_aw s i thi :
   1 <= aw s -> tinv s i thi -> tinv (set_aw s (dec64 (aw s))) i thi.
 Proof.
   intros A [H1 H2 H3 H4 H5 H6]. constructor; cbn; auto.
-  destruct (tpc thi) as [|k| | |k|k m|k m v|k m v|t| | | | |c|]; cbn in *; auto;
+  destruct (tpc thi) as [|k| | |k|k m|k m v|k m v|t| | | | |c| |]; cbn in *; auto;
     try (destruct k; auto; intros L3; specialize (H5 L3)); exfalso; lia.
 Qed.
 
@@ -92,6 +92,13 @@ Proof. reflexivity. Qed.
 
 Lemma tinv_idle s i th :
   tpc th = Idle -> pend th = [] -> Forall (tok_ok s) (tokens_of th) -> tinv s i th.
+Proof.
+  intros P E F. constructor; rewrite ?P; cbn; auto; try discriminate.
+  - unfold inflight. rewrite P. rewrite app_nil_r. exact F.
+  - intros _. exact I.
+Qed.
+Lemma tinv_wbody s i th :
+  tpc th = WBody -> pend th = [] -> Forall (tok_ok s) (tokens_of th) -> tinv s i th.
 Proof.
   intros P E F. constructor; rewrite ?P; cbn; auto; try discriminate.
   - unfold inflight. rewrite P. rewrite app_nil_r. exact F.
@@ -156,10 +163,37 @@ Qed.
 
 Lemma cnt_idle k th : tpc th = Idle -> cnt k th = count_kind k (tokens_of th).
 Proof. intros P. unfold cnt. rewrite P. cbn. lia. Qed.
+Lemma cnt_wbody k th : tpc th = WBody -> cnt k th = count_kind k (tokens_of th).
+Proof. intros P. unfold cnt. rewrite P. cbn. lia. Qed.
 
 (* ---------- assembling the global invariant after a move of thread t ---------- *)
+(* general form: the mailbox may change *)
+Lemma ginv_intro_gen st t th s' th' :
+  ginv st -> nth_error (ths st) t = Some th ->
+  lvl s' = lvl (sh st) ->
+  ar s' + cnt KR th + count_kind KR (mail (sh st)) = ar (sh st) + cnt KR th' + count_kind KR (mail s') ->
+  aw s' + cnt KW th + count_kind KW (mail (sh st)) = aw (sh st) + cnt KW th' + count_kind KW (mail s') ->
+  Forall (tok_ok s') (mail s') ->
+  minv s' <= cur s' ->
+  (lvl s' = 3 -> aw s' <= 1) ->
+  (requires_sync (lvl s') = false -> cur s' = 1 /\ minv s' = 1) ->
+  tinv s' t th' ->
+  (forall i thi, i <> t -> nth_error (ths st) i = Some thi -> tinv s' i thi) ->
+  ginv (St s' (upd (ths st) t th')).
+Proof.
+  intros G N L A W ML M X S T O. constructor; cbn [sh ths]; auto.
+  - pose proof (sumf_upd (cnt KR) _ _ _ th' N). pose proof (g_ar _ G). lia.
+  - pose proof (sumf_upd (cnt KW) _ _ _ th' N). pose proof (g_aw _ G). lia.
+  - intros i thi E. destruct (Nat.eq_dec i t) as [->|Hne].
+    + rewrite (nth_error_upd_same _ _ _ _ N) in E. injection E as <-. exact T.
+    + rewrite nth_error_upd_other in E by congruence. eapply O; eauto.
+Qed.
+
+(* the usual case: the mailbox is not touched *)
 Lemma ginv_intro st t th s' th' :
   ginv st -> nth_error (ths st) t = Some th ->
+  mail s' = mail (sh st) ->
+  Forall (tok_ok s') (mail (sh st)) ->
   lvl s' = lvl (sh st) ->
   ar s' + cnt KR th = ar (sh st) + cnt KR th' ->
   aw s' + cnt KW th = aw (sh st) + cnt KW th' ->
@@ -170,10 +204,12 @@ Lemma ginv_intro st t th s' th' :
   (forall i thi, i <> t -> nth_error (ths st) i = Some thi -> tinv s' i thi) ->
   ginv (St s' (upd (ths st) t th')).
 Proof.
-  intros G N L A W M X S T O. constructor; cbn [sh ths]; auto.
-  - pose proof (sumf_upd (cnt KR) _ _ _ th' N). pose proof (g_ar _ G). lia.
-  - pose proof (sumf_upd (cnt KW) _ _ _ th' N). pose proof (g_aw _ G). lia.
-  - intros i thi E. destruct (Nat.eq_dec i t) as [->|Hne].
-    + rewrite (nth_error_upd_same _ _ _ _ N) in E. injection E as <-. exact T.
-    + rewrite nth_error_upd_other in E by congruence. eapply O; eauto.
+  intros G N EM ML L A W M X S T O. eapply ginv_intro_gen; eauto; rewrite ?EM; auto; lia.
 Qed.
+
+(* the two mailbox premises of ginv_intro when the step does not lower current_version or raise
+   min_version *)
+Ltac mailok G :=
+  first [ exact (g_mail _ G)
+        | eapply Forall_tok_ok_mono; [| |exact (g_mail _ G)];
+          cbn [set_lck set_cur set_min set_ar set_aw set_lazy set_mail lvl cur minv ar aw lck lazy mail bulk]; lia ].
